@@ -608,3 +608,67 @@ Definition in_F25 (lines : list Z) : bool :=
   | [] => false
   | l :: r => 9223372036854775808 <=? (last r l - l - 1)
   end.
+
+(* ------------------------------------------------------------------ internal/symbolizer/symbolizer.go
+   Symbolizer.Symbolize parses the ':'-separated, lower-cased mode; demangleFunction then calls
+   demanglerModeToOptions, whose final statement is panic("unknown demanglerMode ..."). *)
+Fixpoint split_colon_acc (s cur : string) : list string :=
+  match s with
+  | EmptyString => [rev_string cur]
+  | String a r =>
+      if N.eqb (byte_of a) 58 then rev_string cur :: split_colon_acc r EmptyString
+      else split_colon_acc r (String a cur)
+  end.
+Definition split_colon (s : string) : list string := split_colon_acc s EmptyString.
+
+Record symstate := {
+  ss_remote : bool; ss_local : bool; ss_fast : bool; ss_force : bool;
+  ss_demangle : string;     (* demanglerMode *)
+  ss_msgs : Z               (* "ignoring unrecognized symbolization option" messages *)
+}.
+Definition sym_init : symstate :=
+  {| ss_remote := true; ss_local := true; ss_fast := false; ss_force := false; ss_demangle := ""; ss_msgs := 0 |}.
+
+(* the option loop; the bool says "returned nil at none/no" *)
+Fixpoint sym_opts (opts : list string) (st : symstate) : bool * symstate :=
+  match opts with
+  | [] => (false, st)
+  | o :: r =>
+      if String.eqb o "" then sym_opts r st
+      else if String.eqb o "none" || String.eqb o "no" then (true, st)
+      else if String.eqb o "local" then
+        sym_opts r {| ss_remote := false; ss_local := true; ss_fast := ss_fast st; ss_force := ss_force st;
+                      ss_demangle := ss_demangle st; ss_msgs := ss_msgs st |}
+      else if String.eqb o "fastlocal" then
+        sym_opts r {| ss_remote := false; ss_local := true; ss_fast := true; ss_force := ss_force st;
+                      ss_demangle := ss_demangle st; ss_msgs := ss_msgs st |}
+      else if String.eqb o "remote" then
+        sym_opts r {| ss_remote := true; ss_local := false; ss_fast := ss_fast st; ss_force := ss_force st;
+                      ss_demangle := ss_demangle st; ss_msgs := ss_msgs st |}
+      else if String.eqb o "force" then
+        sym_opts r {| ss_remote := ss_remote st; ss_local := ss_local st; ss_fast := ss_fast st; ss_force := true;
+                      ss_demangle := ss_demangle st; ss_msgs := ss_msgs st |}
+      else
+        let d := trim_prefix "demangle=" o in
+        if String.eqb d "full" || String.eqb d "none" || String.eqb d "templates" then
+          sym_opts r {| ss_remote := ss_remote st; ss_local := ss_local st; ss_fast := ss_fast st; ss_force := true;
+                        ss_demangle := d; ss_msgs := ss_msgs st |}
+        else if String.eqb d "default" then sym_opts r st
+        else
+          sym_opts r {| ss_remote := ss_remote st; ss_local := ss_local st; ss_fast := ss_fast st; ss_force := ss_force st;
+                        ss_demangle := ss_demangle st; ss_msgs := ss_msgs st + 1 |}
+  end.
+
+(* demanglerModeToOptions: the option set, named; anything else is the explicit panic *)
+Definition demangler_mode_to_options (m : string) : outcome string :=
+  if String.eqb m "" then Ok "default"
+  else if String.eqb m "templates" then Ok "templates"
+  else if String.eqb m "full" then Ok "full"
+  else if String.eqb m "none" then Ok "none"
+  else Panic "unknown demanglerMode".
+
+(* Symbolize(mode): (messages, demangling applied to the function names) *)
+Definition symbolize_mode (mode : string) : outcome (Z * string) :=
+  let '(early, st) := sym_opts (split_colon (to_lower mode)) sym_init in
+  if early then Ok (ss_msgs st, "none")      (* returned before any demangling *)
+  else bind (demangler_mode_to_options (ss_demangle st)) (fun label => Ok (ss_msgs st, label)).
